@@ -140,7 +140,7 @@ def parseComp : Sexp → Option (Except CompErr (Comp Nat Nat Int))
     some (.ok (.prim (mkArr (← sh.toNats?) (← st.toInts?) (← buf.toInts?))))
   | .list [.atom "B", e] => do some (.ok (.derived (.binary (← parseExpr e))))
   | .list [.atom "U", fs, f, rv] => do
-    some (.ok (.derived (.using (← fs.toNats?) (← f.toNat?) (← rv.toBool?))))
+    some (.ok (.derived (.func (← fs.toNats?) (← f.toNat?) (← rv.toBool?))))
   | .list [.atom "X", text, refs, lits] => do
     let cs ← text.toNats?
     let rf ← pairList refs
@@ -312,11 +312,6 @@ def implStep (t : Tbl) : HOp → Tbl × Option String
   | .remove k => (removeComp (t.length + 1) t k, none)
   | .update o n => (updateId true t o n, none)
 
-def renameLinks (old new : Nat) (t : Tbl) : Tbl :=
-  t.map fun p => match p.2 with
-    | .derived l => (if p.1 = old then new else p.1, .derived (l.replace old new))
-    | c => (if p.1 = old then new else p.1, c)
-
 /-- Spec step: removal deletes exactly the dependency closure; replacing an identifier renames it
 everywhere (keys and defining expressions) and changes nothing else. -/
 def specStep (t : Tbl) : HOp → Tbl × Option String
@@ -332,7 +327,7 @@ def specStep (t : Tbl) : HOp → Tbl × Option String
   | .update o n =>
     if o == n || !(t.keys.contains o) then (t, none)
     else if t.keys.contains n then (updateId true t o n, none)   -- outside the property: as coded
-    else (renameLinks o n t, none)
+    else (specRename o n t, none)
 
 def stepObs (t : Tbl) (err : Option String) : Sexp :=
   match err with
